@@ -175,9 +175,35 @@ def r4_check_skips_missing(cx):
     cx.ob("R4", "R4/Container.check-skips-absent-packs", ok, f, "when locate answers None the loop goes to the next pack: no Ok(false), no error, no panic on that arm")
 
 
+def r5_lazy_content_packs(cx):
+    """opening a container does not need its content packs: only the directory pack is located at open time,
+    content pack slots start empty and are filled on first use"""
+    F = cx.F
+    f = F.one(impl_self="reader::jubako::Container", item="new_with_locator", closure=False)
+    b = F.body(f)
+    lo = b.calls(r"PackLocatorTrait>::locate$")
+    cp = b.calls(r"ContentPack::new$")
+    rs = b.calls(r"Vec::<std::sync::OnceLock<.*ContentPack>>::resize_with")
+    gd = b.calls(r"ManifestPack::get_directory_pack_info$")
+    ok = len(lo) == 1 and not cp and len(rs) == 1 and len(gd) == 1
+    if ok:
+        ok = any(x == ("call", gd[0][0]) for x in b.origins(lo[0][1]["args"][1])) and any(call_is(x[1], r"ManifestPack::max_id$") for x in b.origin_calls(rs[0][1]["args"][1])) and lo[0][0] not in b.reach_after(lo[0][0])
+    cx.ob("R5", "R5/open-does-not-need-content-packs", ok, f, "Container::new_with_locator locates only the directory pack; content pack slots (max_id + 1 OnceLocks) are created empty")
+    g = F.one(impl_self="reader::jubako::Container", item="get_pack", closure=False)
+    gb = F.body(g)
+    st = gb.calls(r"OnceLock::<.*ContentPack>::set$")
+    gp = gb.calls(r"Container::_get_pack$")
+    ok = len(st) == 1 and len(gp) == 1 and any(x == ("call", gp[0][0]) for x in gb.origins(st[0][1]["args"][1]))
+    # MISSING is not cached: the set is only on the FOUND arm
+    miss = [i for i, blk in enumerate(gb.blocks) if not blk.get("cleanup") for s in blk["s"] if s["k"] == "assign" and s["rv"]["k"] == "agg" and s["rv"].get("variant") == "MISSING"]
+    ok = ok and bool(miss) and not any(st[0][0] in gb.reachable(m) for m in miss)
+    cx.ob("R5", "R5/missing-is-not-cached", ok, g, "informational: get_pack caches only a FOUND pack in its slot; a MISSING answer is recomputed next time (the pack may appear later)", info=True)
+
+
 RULES = [
     ("R1", r1_three_way, 8),
     ("R2", r2_absent_is_none, 2),
     ("R3", r3_identity, 1),
     ("R4", r4_check_skips_missing, 1),
+    ("R5", r5_lazy_content_packs, 1),
 ]
